@@ -67,15 +67,44 @@ def stage_order(chk, repo, rule):
         v = p.outcome[1]
         g = [c for c in p.calls() if call_name(c) == 'self._AssignGroup']
         d = [c for c in p.calls() if call_name(c) == 'self._AssignDescriptor']
-        upd = [e for e in p.trace if e[0] == 'expr' and is_call(e[1])
-               and e[1][1][0] == 'attr' and e[1][1][2] == 'update']
-        ok2 = (len(g) == 1 and len(d) == 1 and is_call(v)
-               and v == ('call', ('attr', g[0], 'copy'), (), ())
-               and len(upd) == 1 and upd[0][1][1][1] == v
-               and upd[0][1][2] == (d[0],))
+        # the correction descriptors are *added* to a copy of the groups (a
+        # descriptor and a group may share a name: `update` would let the
+        # descriptor count replace the group count)
+        ok2 = len(g) == 1 and len(d) == 1 and is_call(v) \
+            and v == ('call', ('attr', g[0], 'copy'), (), ())
+        found = show(v)[:120]
+        if ok2:
+            loops = [e for e in p.trace if e[0] == 'loop'
+                     and e[1][0][1] == d[0]]
+            bad_calls = [e for e in p.trace if e[0] == 'expr' and is_call(
+                e[1]) and e[1][1][0] == 'attr' and e[1][1][1] == v]
+            ok2 = len(loops) == 1 and not bad_calls
+            found = '%d loop(s) over the descriptors, other calls on the ' \
+                    'result: %s' % (len(loops), [show(e[1])[:40]
+                                                 for e in bad_calls])
+            if ok2:
+                bv = loops[0][1][0][0]
+                bodies = loops[0][2]
+                stores = [e for e in bodies[0][0] if e[0] in (
+                    'store', 'expr', 'cond', 'loop')] if len(
+                    bodies) == 1 else []
+                want_t = ('sub', v, bv)
+                want_v = (sym.Poly.atom(('call', ('attr', v, 'get'),
+                                         (bv, ('num', Fraction(0))), ()))
+                          + sym.Poly.atom(('sub', d[0], bv))).key()
+                alt_v = (sym.Poly.atom(('sub', v, bv))
+                         + sym.Poly.atom(('sub', d[0], bv))).key()
+                ok2 = (len(stores) == 1 and stores[0][0] == 'store'
+                       and stores[0][1] == want_t
+                       and stores[0][2] in (want_v, alt_v)
+                       and bodies[0][1] is None)
+                found = '; '.join('%s := %s' % (show(e[1])[:50],
+                                                show(e[2])[:80])
+                                  for e in stores if e[0] == 'store')
         chk.ob(rule, ok2, SCH, f, key='result=groups+descriptors:' + form,
-               what='the result is a copy of the groups updated with the '
-                    'correction descriptors', found=show(v)[:120])
+               what='the result is a copy of the groups to which every '
+                    'correction descriptor count is added (complete loop, '
+                    'no replacement)', found=found)
     chk.need(rule, n, 2, 'returning paths of GetDescriptors (one per input '
                          'form)')
     return f
